@@ -10,16 +10,44 @@ from ..refmodel import ModelSystem
 from ..refs import inherit
 
 PROP = 'C07'
-NASTY = ['yes', '1', 'null', 'a: b', ' # x', 'é→', '{', '~', 'true', "it's", '"q"', '- x', '0x1F', '1e3', 'n:1']
+NASTY = ['yes', '1', 'null', 'a: b', ' # x', 'é→', '{', '~', 'true', "it's", '"q"', '- x', '0x1F', '1e3', 'n:1',
+         '\U0001f512 lock', 'tab\tname', 'line\nbreak', '\u2028sep', '\\back\\slash', '<&>', '%s', '']
 FORMATS = ['json', 'yml', 'yaml']
+HANDWRITTEN_DEPTH = 3      # hand-written permutations for every content reachable in <= 3 calls (+ all decorated models)
+
+
+def lang_spec(name):
+    return {'OPS': families.ops_lang, 'OPS2': families.ops2_lang, 'FR': families.fr_lang}[name]()
 
 
 def make_system(arg):
     name, = arg
-    cfg = {'name': name, 'spec': families.ops_lang(), 'types': ['Host', 'Data'],
-           'pair_classes': ['Peer', 'Holds'], 'ep_steps': ['access', 'read'], 'invalid_ops': False,
-           'max_assets': 3, 'max_assocs': 2, 'max_attackers': 2}
+    if name == 'OPS2':      # two inheritance levels below the declared association ends (Crate < Box < Thing)
+        cfg = {'name': name, 'spec': families.ops2_lang(), 'types': ['Crate', 'Item'], 'pair_classes': ['Part'],
+               'ep_steps': ['use', 'open'], 'invalid_ops': False, 'max_assets': 3, 'max_assocs': 2, 'max_attackers': 1}
+    else:
+        cfg = {'name': name, 'spec': families.ops_lang(), 'types': ['Host', 'Data'],
+               'pair_classes': ['Peer', 'Holds'], 'ep_steps': ['access', 'read'], 'invalid_ops': False,
+               'max_assets': 3, 'max_assocs': 2, 'max_attackers': 2}
     return ModelSystem(cfg)
+
+
+def extra_plain_models():
+    """(language name, PlainModel) pairs over languages with re-used field names / deep inheritance"""
+    from ..refs.sem import PlainModel
+    out = []
+    out.append(('FR', PlainModel([('fo', 'Folder'), ('fi', 'File'), ('ch', 'Chunk'), ('se', 'Server'), ('di', 'Disk'),
+                                  ('of', 'Office'), ('pr', 'Printer')],
+                                 [('InFolder', 'parent', ['fo'], 'files', ['fi']), ('InFile', 'parent', ['fi'], 'chunks', ['ch']),
+                                  ('Has_Server_Disk', 'owner', ['se'], 'parts', ['di']),
+                                  ('Has_Office_Printer', 'owner', ['of'], 'parts', ['pr'])])))
+    out.append(('FR', PlainModel([('of', 'Office'), ('pr', 'Printer'), ('p2', 'Printer'), ('se', 'Server'), ('di', 'Disk')],
+                                 [('Has_Office_Printer', 'owner', ['of'], 'parts', ['pr', 'p2']),
+                                  ('Has_Server_Disk', 'owner', ['se'], 'parts', ['di'])])))
+    out.append(('OPS2', PlainModel([('c1', 'Crate'), ('c2', 'Crate'), ('i1', 'Item'), ('i2', 'Item')],
+                                   [('Part', 'whole', ['c1'], 'parts', ['c2', 'i1']), ('Contain', 'container', ['c2'], 'inside', ['i1', 'i2']),
+                                    ('Pair', 'crateA', ['c1', 'c2'], 'itemsB', ['i1', 'i2'])])))
+    return out
 
 
 def defenses_of(sp, t):
@@ -178,7 +206,7 @@ def decorated_models():
 
 def build_decorated(fx, d):
     from maltoolbox.model import Model, AttackerAttachment
-    m = Model('model é "x": y', fx.factory)
+    m = Model('model é "x": y \U0001f512', fx.factory)
     objs = []
     for t, nm in zip(d['types'], d['names']):
         kw = {'name': nm}
@@ -188,7 +216,7 @@ def build_decorated(fx, d):
                 kw['patched'] = 1.0 - d['defense']
         o = getattr(fx.ns, t)(**kw)
         if d['extras']:
-            o.extras = {'k': 1, 'pos': {'x': 1.5, 'y': [1, 2]}}
+            o.extras = {'k': 1, 'pos': {'x': 1.5, 'y': [1, 2]}, 'tiny': 1e-07, 'huge': 1e+22, 'neg': -0.0, 'uni': '\U0001f512', 'flag': True, 'none': None}
         m.add_asset(o)
         objs.append(o)
     hosts = [o for o in objs if str(o.type) == 'Host']
@@ -205,7 +233,7 @@ def build_decorated(fx, d):
         if d['extras']:
             x.extras = {'zz': 'after', 'Aa': 'before'}
         m.add_association(fx.ns.Holds(owner=[hosts[0]], datas=[datas[0]]))
-    at = AttackerAttachment(name='att: "é"')
+    at = AttackerAttachment(name='att: "é" \U0001f512')
     m.add_attacker(at)
     for o in objs[:2]:
         at.add_entry_point(o, 'access' if str(o.type) == 'Host' else 'read')
@@ -215,6 +243,7 @@ def build_decorated(fx, d):
     return m
 
 
+@common.job
 def _job(job):
     kind, items = job
     sp = families.ops_lang()
@@ -226,7 +255,8 @@ def _job(job):
             c = engine_hist.replay(system, hist)
             case = {'source': 'history', 'history': [list(h) for h in hist]}
             viols += roundtrip(system.fx, sp, c.model, case, stats)
-            viols += handwritten(system.fx, sp, c.model, case, stats)
+            if len(hist) <= HANDWRITTEN_DEPTH:
+                viols += handwritten(system.fx, sp, c.model, case, stats)
             stats['models'] = stats.get('models', 0) + 1
     else:
         for d in items:
